@@ -93,9 +93,12 @@ func cmdCheck(argv []string) int {
 		seed, _ = strconv.Atoi(s)
 	}
 	timeoutS := 10
+	// every tier: an unsat answer is re-checked by the other solver family (z3 5.1.0 was caught twice answering unsat on
+	// satisfiable problems - once over nested sequences, once over strings and sequences of strings); a contradicting
+	// "sat" fails the obligation
+	crossCheck = os.Getenv("GOVC_NOCROSS") == ""
 	if *tier == "thorough" {
 		timeoutS = 60
-		crossCheck = true
 	}
 	if *timeoutFlag > 0 {
 		timeoutS = *timeoutFlag
